@@ -157,6 +157,25 @@ DEPKINDS = {
                  '{{ w: int64; }} }}'),
         ('Mid', 'type {_} extending {Base};'),
         ('Leaf', 'type {_} extending {Mid};')],
+    # cardinality of a computed that relies on an exclusive constraint
+    # declared on an ancestor's pointer (overloaded / not) of the type used
+    'single_global_inherited_exclusive': [
+        ('Named', 'abstract type {_} {{ required property name: str '
+                  '{{ constraint exclusive }} }}'),
+        ('Foo', 'type {_} extending {Named} {{ overloaded required '
+                'property name: str {{ annotation title := "x" }} }}'),
+        ('g', 'single global {_} := (select {Foo} filter .name = "x");'),
+        ('H', 'type {_} {{ single link f := (select {Foo} filter '
+              '.name = "y"); }}')],
+    'single_alias_inherited_exclusive': [
+        ('Named', 'abstract type {_} {{ required property name: str '
+                  '{{ constraint exclusive }} }}'),
+        ('Mid', 'abstract type {_} extending {Named};'),
+        ('Foo', 'type {_} extending {Mid};'),
+        ('g', 'required single global {_} := (assert_exists((select {Foo} '
+              'filter .name = "x")).name);'),
+        ('f', 'function {_}() -> optional {Foo} using ((select {Foo} '
+              'filter .name = "z"));')],
     'union_target': [
         ('A', 'type {_} {{ n: str; }}'), ('B', 'type {_} {{ n: str; }}'),
         ('C', 'type {_} {{ l: {A} | {B}; m := .l.n; }}')],
